@@ -7,8 +7,6 @@ import (
 	"path/filepath"
 	"sort"
 	"time"
-
-	"verif.local/sim/simbuild"
 )
 
 // Evidence accumulates what a check run covered; written to evidence/<id>.json.
@@ -142,7 +140,7 @@ func (ev *Evidence) write() error {
 		"wall_s":      ev.wall,
 		"violations":  ev.Violations,
 	}
-	dir := filepath.Join(simbuild.VerifDir(), "evidence")
+	dir := filepath.Join(outDir(), "evidence")
 	os.MkdirAll(dir, 0o755)
 	b, err := json.MarshalIndent(doc, "", " ")
 	if err != nil {
